@@ -13,7 +13,7 @@ from harness.pool import Pool
 
 def run(ctx) -> None:
     mp = 2 if ctx.quick else 3
-    ctx.rule = (f"cases = every preamble of <= {mp} of 15 item kinds x 8 fault kinds x 2 indentations x 3 tails x main/included, through the string API and (sampled) Program.assemble; "
+    ctx.rule = (f"cases = every preamble of <= {mp} of 16 item kinds x 10 fault kinds x 2 indentations x 3 tails x main/included, through the string API and (sampled) Program.assemble; "
                 "non-trivial = distinct cases")
     ctx.trusted = ["TLC 1.8", "spec/ErrLoc.tla", "tolerant file:line[:col] extraction (regex) in harness/drivers.py"]
     ctx.assumptions = ["zero-based lines and columns as the statement says; any file:line[:col] occurrence with the right numbers counts"]
@@ -33,7 +33,7 @@ def run(ctx) -> None:
     # treat as line ends or lines ending in a bare 0, and a sample of the rest
     nstr = len(tasks)
     for k, v in enumerate(list(vecs)):
-        if any(x in ("ffc", "vtstr", "zeroend") for x in v["pre"]) or (k + ctx.seed) % (5 if ctx.quick else 2) == 0:
+        if any(x in ("ffc", "vtstr", "zeroend", "localdef") for x in v["pre"]) or (k + ctx.seed) % (5 if ctx.quick else 2) == 0:
             tasks.append(dict(tasks[k], entry="file"))
             vecs.append(dict(v, entry="file"))
     res = Pool().map("errloc_case", tasks, timeout=30)
